@@ -197,6 +197,12 @@ func (mw MeshWriter) Write(mesh modeling.Mesh, writer io.Writer) error {
 			}
 
 		}
+
+		// A vertex element without properties still has one (empty) line
+		// per record in the ASCII encoding
+		if mw.Format == ASCII && len(builtWriters) == 0 {
+			writer.Write(newLineByte)
+		}
 	}
 
 	if mesh.Topology() != modeling.TriangleTopology {
